@@ -185,3 +185,26 @@ Example c05_ex_release :
                OPush {| t_id := 11; t_name := 1 |}; OPush {| t_id := 12; t_name := 2 |}] in
   snd (step held_requeue_front st (ORelease [(0, 1)])) = ObsReleased [11] [(0, 1); (1, 1)].
 Proof. vm_compute. reflexivity. Qed.
+
+(* ---------- scheduler level: the pool automaton (Model/Pool.v) ----------
+   (qualified names: Pool.v and Queues.v share some identifiers) *)
+From Cylc Require Model.Pool Proofs.PoolProofs Proofs.PoolTheorems.
+
+(* Whenever the automaton accepts a queue release in a real run: no released
+   task is held (unless manually triggered), and for every limited queue that
+   gets a newly released non-triggered member, the members already active or
+   released-awaiting-preparation plus the new ones stay within the limit. *)
+Theorem c05_pool_release_respects_queue_limits : forall c s l s',
+  Pool.step c s (Pool.ERelease l) = Pool.Ok s' ->
+  (forall t, In t l -> exists p, Pool.find_task (Pool.pool s) t = Some p /\
+                                 (Pool.p_held p = false \/ Pool.p_manual p = true)) /\
+  forall q, (q < length (Pool.c_qlimits c))%nat -> Pool.qlimit c q <> 0%nat ->
+    PoolTheorems.count_in_queue c q (PoolTheorems.newly_released s l) <> 0%nat ->
+    (Pool.active_in c s q + PoolTheorems.count_in_queue c q (PoolTheorems.newly_released s l) <= Pool.qlimit c q)%nat.
+Proof. exact PoolTheorems.release_respects_queue_limits. Qed.
+
+(* A task that becomes queued is not held (unless manually triggered). *)
+Theorem c05_pool_held_not_queued : forall c s t st h s' p inp r,
+  Pool.step c s (Pool.EState t st h true r) = Pool.Ok s' -> Pool.lookup s t = Some (p, inp) ->
+  Pool.p_queued p = false -> Pool.p_manual p = false -> h = false.
+Proof. exact PoolTheorems.held_not_queued. Qed.
